@@ -725,7 +725,30 @@ def r13_13(chk):
     chk.floor("R13.13", 2, "completed and not_completed")
 
 
+def r13_14(chk):
+    chk.rule("R13.14", "one identifier, one record: every SQL statement of the SQLite store that deletes or updates a result row selects it by the stored id itself (`record_id=?`), never by a function of the stored id, a LIKE pattern or an OR of alternatives -- `rtrim(record_id, '.json')=?` strips CHARACTERS, so dropping 'seq' also deletes the not-completed records 'seqs', 'seqn', 'seq.json' ...")
+    import re as _re
+    from ..literals import all_strings
+
+    m = chk.repo.module(SQ)
+    n = 0
+    for q, fn in m.all_functions():
+        for node, text in all_strings(fn):
+            mm = _re.match(r"\s*(DELETE\s+FROM|UPDATE)\s+", text, _re.I)
+            if not mm or "record_id" not in text:
+                continue
+            where = text[text.upper().find("WHERE"):] if "WHERE" in text.upper() else ""
+            if "record_id" not in where:
+                continue
+            n += 1
+            uses = _re.findall(r"[\w(]*record_id[^=<>!]*?(?:=|LIKE|<|>)[^?]*\?", where, _re.I)
+            exact = bool(uses) and all(_re.fullmatch(r"record_id\s*=\s*\?", u.strip(), _re.I) for u in uses) and not _re.search(r"\bOR\b", where, _re.I) and not _re.search(r"\w+\s*\(\s*record_id", where, _re.I)
+            chk.decide(exact, "R13.14", key(m, q, f"{mm.group(1).split()[0].upper()} selects by record_id=?"), m.loc(node), "record_id=? only", f"the statement `{' '.join(text.split())[:110]}` does not select the row by the exact stored id: identifiers related by a suffix or by trailing characters are hit together")
+    chk.floor("R13.14", 2, "DELETE / UPDATE statements on single records")
+
+
 def run(chk):
+    r13_14(chk)
     r13_13(chk)
     r13_12(chk)
     r13_10(chk)
